@@ -127,6 +127,9 @@ func (b *Buffer) setCheckStartOffset(offset int64) {
 func (b *Buffer) Write(data []byte) (int, error) {
 	b.mu.Lock()
 	defer b.mu.Unlock()
+	if b.committed {
+		return 0, fmt.Errorf("write to committed upload")
+	}
 	if offset := b.checkStartOffset; offset != -1 {
 		// Can't call Buffer.Size, since we are already holding the mutex.
 		if int64(len(b.buf)) != offset {
